@@ -1,0 +1,37 @@
+//go:build verif
+
+// Contracts for the lvc verifier (comment-only file, compiled only with -tags verif).
+// See /verif/DESIGN.md.
+
+package rlwe
+
+// kernelmod(q): the precondition on a modulus under which the ring kernels (ring/zz_contracts_verif.go)
+// and the lazy NTT schedule (values up to 8q must fit in 64 bits) were verified.
+//@ spec kernelmod(q) = q < 1<<61 && ring.isprime(q)
+// P moduli: LogP = 61 requests (used by the shipped bootstrapping sets) generate primes just above 2^61,
+// so only p < 2^62 can be required of an accepted literal; see DESIGN.md (findings, F1b).
+//@ spec kernelmodP(p) = p < 1<<62 && ring.isprime(p)
+
+//@ func CheckModuli
+//@   property C19
+//@   ensures implies(result == nil, forall(k, 0, len(q), kernelmod(q[k])))
+//@   ensures implies(result == nil, forall(k, 0, len(p), kernelmodP(p[k])))
+//@   loop 0 invariant 0 <= i && i <= len(q)
+//@   loop 0 invariant forall(k, 0, i, q[k] < 1<<61)
+//@   loop 1 invariant 0 <= i && i <= len(q)
+//@   loop 1 invariant forall(k, 0, i, ring.isprime(q[k]))
+//@   loop 2 invariant 0 <= i && i <= len(p)
+//@   loop 2 invariant forall(k, 0, i, p[k] < 1<<62)
+//@   loop 3 invariant 0 <= i && i <= len(p)
+//@   loop 3 invariant forall(k, 0, i, ring.isprime(p[k]))
+
+//@ func checkSizeParams
+//@   property C19
+//@   ensures iff(result == nil, 4 <= logN && logN <= 20)
+
+//@ func checkModuliLogSize
+//@   property C19
+//@   ensures implies(result == nil, forall(k, 0, len(logQ), 0 < logQ[k] && logQ[k] <= 60))
+//@   ensures implies(result == nil, forall(k, 0, len(logP), 0 < logP[k] && logP[k] <= 61))
+//@   loop 0 invariant 0 <= i && i <= len(logQ) && forall(k, 0, i, 0 < logQ[k] && logQ[k] <= 60)
+//@   loop 1 invariant 0 <= i && i <= len(logP) && forall(k, 0, i, 0 < logP[k] && logP[k] <= 61)
